@@ -185,6 +185,31 @@ for _f in FAMILIES:
     _linear_contract(_f)
 
 
+def _requery_contract(fam):
+    cls = FAMILIES[fam][0]
+
+    @contract('C10.requery.' + fam, [ZK + ':ZernikeStandard.terms', ZK + ':ZernikeStandard.poly', ZK + ':ZernikeStandard.__init__'], ['C10'], max_paths=8)
+    def rq(c):
+        """edit-then-ask: the polynomial is evaluated with the coefficient list the object holds *now* (ZernikeFit assigns a new
+        list on every objective evaluation), also when the new list is longer or shorter than the one given at construction"""
+        Zm = c.mod('optiland.zernike')
+        r, phi = c.real('r', 0, 1, nonneg=True), c.real('phi', -3, 3)
+        first = [c.real('f%d' % i, -2, 2) for i in range(3)]
+        Z = getattr(Zm, cls)(list(first))
+        Z.poly(r, phi)
+        for n_new in (8, 2):
+            new = [c.real('n%d_%d' % (n_new, i), -2, 2) for i in range(n_new)]
+            Z.coeffs = list(new)
+            fresh = getattr(Zm, cls)(list(new))
+            c.ensure_eq('C10.requery.poly_uses_the_current_coefficient_list', c.val(Z.poly(r, phi)), c.val(fresh.poly(r, phi)))
+            c.ensure('C10.requery.one_term_per_current_coefficient', len(Z.terms(r, phi)) == n_new)
+    return rq
+
+
+for _f in FAMILIES:
+    _requery_contract(_f)
+
+
 # ---- fitting ------------------------------------------------------------------------------------------------
 def _fit(ct, tier, seed):
     from pyvc import twin
